@@ -143,26 +143,33 @@ Qed.
    as as_unsafe_path needs (the handle's root, the thread directory, one magic-link per
    open descriptor whose readlink is the kernel's rendering of the object's path), and on
    it the library's own reading of /proc/thread-self/fd/N is proved to return root path +
-   path (StaticProcfs.run_as_unsafe_path).  So for a procfs handle that resolves with
-   openat2: the whole of opath::resolve -- walk, Rc bookkeeping, every check_current with
-   its procfs round-trips -- returns what the kernel's walk returns, on every well-formed
-   tree without hard links.  The premises after [wf] are properties of the tree alone. *)
-From PV Require Import StaticProcfs.
+   path -- through openat2 when the kernel has it (StaticProcfs.run_as_unsafe_path) and through
+   the emulated procfs resolver when it has not (StaticProcfsEmu.run_as_unsafe_path_emu: the
+   thread-self symlink followed component by component, every step's mount id verified, the
+   magic-link re-opened with O_PATH|O_NOFOLLOW).  So the whole of opath::resolve -- walk, Rc
+   bookkeeping, every check_current with its procfs round-trips -- returns what the kernel's
+   walk returns, on every well-formed tree without hard links, with or without openat2.
+   The premises after [wf] are properties of the tree alone. *)
+From PV Require Import StaticProcfs StaticProcfsEmu.
 
 Theorem C01_resolve_eq_walk :
   forall s rp df, wf s df -> links_ok s -> names_ok s -> closed s -> paths_found s -> paths_short s rp -> is_abs rp = true ->
-  forall fz pf gh, fz <> 0%nat -> ph_mnt gh = Some PROC_MNT -> ph_openat2 gh = true ->
+  (* [o2]: is openat2 available?  The procfs handle resolves with it exactly when it is. *)
+  forall fz pf gh o2, fz <> 0%nat -> ph_mnt gh = Some PROC_MNT -> ph_openat2 gh = o2 ->
   forall ps nosym nf t root path,
     Frame s [(ph_fd gh, PB s)] t -> tget t root = Some ROOT -> has_nul path = false ->
     match ewalk s path nf nosym with
-    | WOk o => exists t' fd, run s rp t (opath_resolve_root fz true (S pf) gh ps root path nosym nf) = Done t' (Ok fd) /\ tget t' fd = Some o
-    | WErr n => exists t', run s rp t (opath_resolve_root fz true (S pf) gh ps root path nosym nf) = Done t' (Err (OsError n))
-    | WBudget => exists t', run s rp t (opath_resolve_root fz true (S pf) gh ps root path nosym nf) = Done t' (Err (OsError ELOOP))
+    | WOk o => exists t' fd, run s rp t (opath_resolve_root fz o2 (S pf) gh ps root path nosym nf) = Done t' (Ok fd) /\ tget t' fd = Some o
+    | WErr n => exists t', run s rp t (opath_resolve_root fz o2 (S pf) gh ps root path nosym nf) = Done t' (Err (OsError n))
+    | WBudget => exists t', run s rp t (opath_resolve_root fz o2 (S pf) gh ps root path nosym nf) = Done t' (Err (OsError ELOOP))
     end.
 Proof.
-  intros s rp df Hwf Hl Hn Hcl Hpf Hps Habs fz pf gh Hfz Hmnt Ho2 ps nosym nf t root path Hfr Hroot Hnul.
-  apply (C01_resolve_refines_walk s rp _ df (CheckProofs.nf rp) Hwf Hl Hn Hcl fz true (S pf) gh Hfz
-           (getpath_static s rp fz gh pf Hfz Hmnt Ho2 Habs Hn Hpf Hps) ps nosym nf t root path Hfr Hroot Hnul).
+  intros s rp df Hwf Hl Hn Hcl Hpf Hps Habs fz pf gh o2 Hfz Hmnt Ho2 ps nosym nf t root path Hfr Hroot Hnul.
+  destruct o2.
+  - apply (C01_resolve_refines_walk s rp _ df (CheckProofs.nf rp) Hwf Hl Hn Hcl fz true (S pf) gh Hfz
+             (getpath_static s rp fz gh pf Hfz Hmnt Ho2 Habs Hn Hpf Hps) ps nosym nf t root path Hfr Hroot Hnul).
+  - apply (C01_resolve_refines_walk s rp _ df (CheckProofs.nf rp) Hwf Hl Hn Hcl fz false (S pf) gh Hfz
+             (getpath_static_emu s rp fz gh pf Hfz Hmnt Ho2 Habs Hn Hpf Hps) ps nosym nf t root path Hfr Hroot Hnul).
 Qed.
 
 (* the real program, executed: tree with escaping / absolute links, '..' steps (each one
@@ -184,8 +191,7 @@ Proof. vm_compute. repeat split. Qed.
 (* the same with openat2 absent everywhere -- the configuration in which the emulated
    resolver is used in practice: check_current then reaches fd/N through the EMULATED procfs
    resolver (thread-self is a symlink it follows component by component, each step's mount id
-   verified).  Executed, not proved in general: for this configuration the general statement
-   keeps the premise of C01_resolve_refines_walk. *)
+   verified): the second case of C01_resolve_eq_walk, executed. *)
 Example C01_resolve_runs_without_openat2 :
   let s := FSModel.build [FSModel.MkDir [b "a"]; FSModel.MkDir [b "a"; b "b"]; FSModel.MkFile [b "a"; b "b"; b "f"]; FSModel.MkLnk [b "esc"] (b "../../..");
                   FSModel.MkLnk [b "a"; b "up"] (b "../a/b"); FSModel.MkLnk [b "abs"] (b "/a")] in
